@@ -41,7 +41,7 @@ def getattr_(I, obj, name):
             if name in ty.methods:
                 return AbstractMethod(obj, name, ty.methods[name])
             if name == "__class__":
-                raise Unsupported("__class__ of abstract %s" % ty.name)
+                return I.B.AbsClass(obj)
             raise Unsupported("abstract %s has no declared member %s" % (ty.name, name))
         if isinstance(ty, TSeq):
             return SeqMethod(obj, name)
